@@ -50,6 +50,16 @@ Fixpoint escape_backslashes (s : str) : str :=
       else c :: escape_backslashes r
   end.
 
+(* _escape_backslashes(text, delimiter_follows=False): a final backslash stays single (the language word of a fence) *)
+Fixpoint escape_backslashes_inner (s : str) : str :=
+  match s with
+  | [] => []
+  | c :: r =>
+      if (c =? 92)%N && (match r with d :: _ => is_ascii_punct d | [] => false end)
+      then 92%N :: 92%N :: escape_backslashes_inner r
+      else c :: escape_backslashes_inner r
+  end.
+
 (* _normalize_title_quotes *)
 Definition normalize_title_quotes (t : str) : str :=
   [dq] ++ str_replace [dq] [bsl; dq] (escape_backslashes t) ++ [dq].
@@ -236,7 +246,7 @@ Section Render.
     let st := set_skip false st in
     let code := match rev content with 10%N :: r => rev r | _ => content end in     (* removesuffix: only the final newline *)
     let extra_text := match extra with [] => [] | _ => [sp] ++ extra end in
-    let lang_text := match lang with [] => [] | _ => escape_backslashes lang ++ extra_text end in
+    let lang_text := match lang with [] => [] | _ => escape_backslashes_inner lang ++ extra_text end in
     let fence := repeat fc (Nat.max flen (min_fence_length code fc)) in
     let info_sep := match lang_text with c :: _ => if N.eqb c fc then [sp] else [] | [] => [] end in
     let first := r_prefix st ++ fence ++ info_sep ++ lang_text in
@@ -356,7 +366,7 @@ Section Render.
                     match l with
                     | [] => ret ([], st)
                     | child :: rest =>
-                        let num := i + start in
+                        let num := Z.min (i + start) 999999999 in       (* a list marker has at most nine digits *)
                         let pfx := if ordered then zstr num ++ [46; 32]%N else bullet ++ [sp] in
                         let sub := if ordered then spaces (length (zstr num) + 2) else [sp; sp] in
                         let p := r_prefix st in let p2 := r_prefix2 st in
